@@ -291,4 +291,133 @@ def checkEngine (params : List String) (lines : List String) : CaseResult := Id.
   if total > 1 then sp := s!"catch_once: continued {total} times for one token" :: sp
   return { r with specs := sp, nontrivial := total > 0 }
 
+/-! ## c13e2: several instances of the same process through one engine / fan-out / timer builder -/
+
+/-- per instance, per operation: `i <k> <listening> <observed> <continued> <end completed> <errors>` -/
+structure IObs where
+  listen : Nat
+  cont : Nat
+  done : Nat
+  errs : Nat
+deriving Inhabited
+
+/-- one operation `n <inst|set> <arg> <armed>` followed by one `i` line per existing instance -/
+structure NObs where
+  op : String
+  arg : Int
+  armed : List Int
+  insts : List IObs
+deriving Inhabited
+
+def parseE2 (lines : List String) : Option (List NObs) := do
+  let mut acc : Array NObs := #[]
+  for ln in lines do
+    match words ln with
+    | ["n", op, arg, a] =>
+      acc := acc.push { op, arg := ← parseInt? arg, armed := ← intList? a, insts := [] }
+    | ["i", k, l, _, c, dn, er] =>
+      if acc.isEmpty then none
+      let last := acc.back!
+      if (← k.toNat?) != last.insts.length then none
+      let io : IObs := { listen := ← l.toNat?, cont := ← c.toNat?, done := ← dn.toNat?, errs := ← er.toNat? }
+      acc := acc.pop.push { last with insts := last.insts ++ [io] }
+    | _ => none
+  return acc.toList
+
+def mergeSorted : List Int → List Int → List Int
+  | [], l => l
+  | l, [] => l
+  | a :: as, b :: bs => if a ≤ b then a :: mergeSorted as (b :: bs) else b :: mergeSorted (a :: as) bs
+
+/-- model: one timer per instance, created at the clock reading of its `inst` operation, all on the
+same clock; each feeds its own one-token catch event -/
+def replayE2 (d : Def) (now0 : Int) (cs : List Nat) (obs : List NObs) : Option String := Id.run do
+  let mut now := now0
+  let mut ms : Array (St × Bool) := #[]     -- timer state, catch event listening
+  let mut n := 0
+  for o in obs do
+    n := n + 1
+    let before := ms.map (fun p => p.1.fired.length)
+    match o.op with
+    | "set" =>
+      now := o.arg
+      ms := ms.map (fun p => (settleWith d cs 16 (apply d p.1 (.set o.arg)), p.2))
+    | "inst" => ms := ms.push (settleWith d cs 16 (init d now), true)
+    | _ => return some s!"op {n}: unknown operation {o.op}"
+    if o.insts.length != ms.size then return some s!"op {n}: {o.insts.length} instances reported, {ms.size} exist"
+    let mut k := 0
+    for io in o.insts do
+      let (st, active) := ms.getD k (init d now, false)
+      let f := st.fired.length - (before.getD k 0)
+      let expCont := if active && f > 0 then 1 else 0
+      let expListen := if o.op == "inst" && k + 1 == ms.size then 1 else 0
+      if io.listen != expListen then
+        return some s!"op {n} {o.op} {o.arg}: instance {k} listening model {expListen} impl {io.listen}"
+      if io.cont != expCont then
+        return some s!"op {n} {o.op} {o.arg}: instance {k} continued model {expCont} impl {io.cont}"
+      if expCont > 0 then ms := ms.set! k (st, false)
+      k := k + 1
+    let ma := ms.foldl (fun acc p => mergeSorted acc (armed p.1)) []
+    if ma != o.armed then
+      return some s!"op {n} {o.op} {o.arg}: armed model {showInts ma} impl {showInts o.armed}"
+  return none
+
+def checkEngine2 (params : List String) (lines : List String) : CaseResult := Id.run do
+  let some (d, now0) := (match params with
+      | [_, _, kind, reps, start, iv, e, now0] => do
+        let reps ← parseInt? reps
+        let start ← parseOpt start
+        let iv ← parseInt? iv
+        let e ← parseOpt e
+        let now0 ← parseInt? now0
+        let d ← (match kind with
+          | "date" => start.map Def.date
+          | "duration" => some (Def.duration iv)
+          | "cycle" => some (Def.cycle reps start iv e)
+          | _ => none)
+        pure (d, now0)
+      | _ => none) | return { bad := ["c13e2 params"] }
+  let some obs := parseE2 lines | return { bad := ["c13e2 lines"] }
+  let mut r : CaseResult := {}
+  let mut firstDiff : Option String := none
+  let mut agreed := false
+  for cs in choiceLists false do
+    if !agreed then
+      match replayE2 d now0 cs obs with
+      | none => agreed := true
+      | some msg => if firstDiff.isNone then firstDiff := some msg
+  if !agreed then
+    r := { r with diffs := (firstDiff.getD "no resolution of the selects reproduces the history") :: r.diffs }
+  -- the property on the implementation's own traces, per instance: its catch event continues
+  -- exactly once, at the first operation that brings the clock to ITS OWN first due time
+  -- (its arming time + duration / + interval, or the date), never before
+  let mut sp : List String := []
+  let mut now := now0
+  let mut armedAt : Array Int := #[]
+  let mut contd : Array Nat := #[]
+  for o in obs do
+    if o.op == "set" then now := o.arg
+    if o.op == "inst" then
+      armedAt := armedAt.push now
+      contd := contd.push 0
+    let mut k := 0
+    for io in o.insts do
+      let due := d.origin (armedAt.getD k 0) + d.interval
+      let which := if k == 0 then "first" else "second"
+      if io.errs > 0 then sp := s!"catch_once: instance {k}: {io.errs} error traces at {o.op} {o.arg}" :: sp
+      if io.cont > 0 && now < due then
+        sp := s!"never_early_{which}_instance: instance {k} armed at {armedAt.getD k 0} continued at clock {now}, its own due time is {due}" :: sp
+      if io.done != io.cont then
+        sp := s!"catch_once: instance {k} continued {io.cont} times, end completed {io.done} times at {o.op} {o.arg}" :: sp
+      let had := contd.getD k 0
+      -- `0 ≤ reps` or unbounded with reps ≠ 0: the definition fires at least once
+      let fires := !d.isCycle || d.reps != 0
+      if fires && had == 0 && io.cont == 0 && due ≤ now && o.op == "set" then
+        sp := s!"instance_misses_own_timer: instance {k} armed at {armedAt.getD k 0}, due {due}, did not continue at clock {now}" :: sp
+      if had + io.cont > 1 then
+        sp := s!"catch_once: instance {k} continued {had + io.cont} times for one token" :: sp
+      contd := contd.set! k (had + io.cont)
+      k := k + 1
+  return { r with specs := sp, nontrivial := contd.toList.any (· > 0) }
+
 end Bpmn.Driver.C13
